@@ -53,7 +53,7 @@ func init() {
 			"(J-pair) the pair literal carries {x.Neg(), x} for Quantity and Value, swapped Account/Other and one Commodity inside one expression;",
 			"(C-value, J-valuation) no later write breaks the anti-symmetry: Quantity/Account/Other/Commodity are never written after construction, Value only by the valuation callback, where each stored value is an odd-symmetric function of the same posting's Quantity (table over shopspring/decimal, followed through NormalizedPrices.Valuate and price.Multiply) and the store is not control-dependent on the posting's side;",
 			"(K-daytx) whole transactions, never single postings, are added to or dropped from a day;",
-			"(K-insert) the balance report adds each posting with a non-nil mapped account exactly once on every path, keyed by the transaction's date;",
+			"(K-insert, K-report-amounts) the balance report adds each posting with a non-nil mapped account exactly once on every path, keyed by the transaction's date, and nothing but Report.Insert's lazy initialisation ever writes a node's amounts;",
 			"(K-delta) the Delta row is Totals()#0 after Plus(Totals()#1), not negated, with no Minus on the flow.",
 		},
 		NotDecided: []string{
@@ -61,7 +61,7 @@ func init() {
 			"anything about filters and mappings (the property excludes them);",
 			"a wrong-but-symmetric value (that is C03).",
 		},
-		Rules: []Rule{RuleCPosting, RuleCPostings, RuleJPair, RuleCValue, RuleJValuation, RuleKDayTx, RuleKInsert, RuleKDelta},
+		Rules: []Rule{RuleCPosting, RuleCPostings, RuleJPair, RuleCValue, RuleJValuation, RuleKDayTx, RuleKInsert, RuleKReportAmounts, RuleKDelta},
 	})
 }
 
@@ -73,13 +73,14 @@ func init() {
 			"(K-sorted-days, K-fifo) Journal.Days is only assigned a slice sorted by a comparator that reads Day.Date, and no stage of cpr.Seq spawns goroutines per item, so days are evaluated in ascending order;",
 			"(K-proc-literal, D-open-close) the checker's processor binds Open, Posting, Balance and Close; open adds to and close removes from the set of open accounts on every success path, and all four callbacks consult that set before succeeding (sibling agreement);",
 			"(D-check-first) every command that loads a journal runs the checker in its first Process call, before any stage that looks at openings, transactions, assertions or closings;",
+			"(D-reject) every error return of the checker callbacks is control-dependent only on the reviewed conditions (account open?, same account?, quantity IsZero/Equal, NoCheck);",
 			"(C-sparse) no branch depends on the presence bit of a sparse Amounts entry (absent means zero).",
 		},
 		NotDecided: []string{
 			"the iff itself: the comparison of quantities in assertions, the zero test on close, the text of diagnostics;",
 			"assertions on non asset/liability accounts (the checker tracks quantities only for A/L accounts).",
 		},
-		Rules: []Rule{RuleDProcessOrder, RuleKSortedDays, RuleKFifo, RuleDOpenClose, RuleDCheckFirst, RuleCSparse},
+		Rules: []Rule{RuleDProcessOrder, RuleKSortedDays, RuleKFifo, RuleDOpenClose, RuleDReject, RuleDCheckFirst, RuleCSparse},
 	})
 }
 
@@ -97,5 +98,52 @@ func init() {
 			"commutativity of the checker callbacks within one kind on one day (two opens, or two assertions, of one day are evaluated in arrival order; the verdict does not depend on it for journals the property admits, argued informally only).",
 		},
 		Rules: []Rule{RuleDProcessOrder, RuleKSortedDays, RuleAArrival, RuleAOrder, RuleDIncludePath, RuleDPushOnce},
+	})
+}
+
+func init() {
+	claim(&Property{
+		ID: "C02",
+		Decides: []string{
+			"(B1) collapsing and remapping never touch other accounts: no append through a reslice of an interned account's segments or of any storage the function does not own;",
+			"(G1, G2) the balance pipeline is check -> prices -> valuate -> filter -> close -> query, and every stage's inputs are written by an earlier stage;",
+			"(K-where-select) filters see the booked key, the mapping is applied only to what is inserted: `if Where(key) { Insert(Select(key), amount) }`;",
+			"(K-partition-whole) period start and end dates are consumed whole (closing days, columns);",
+			"(K-insert) every posting with a non-nil mapped account is added exactly once, keyed by the transaction's date.",
+		},
+		NotDecided: []string{
+			"any cell value: window, --last, --diff and closing arithmetic, running sums, row selection (arithmetic over runtime dates and amounts; no rule in reach bounds them);",
+			"the alignment of dates to period ends (C11).",
+		},
+		Rules: []Rule{RuleB1, RuleG1, RuleG2, RuleKWhereBeforeSelect, RuleKPartitionWhole, RuleKInsert, RuleKReportAmounts},
+	})
+	claim(&Property{
+		ID: "C03",
+		Decides: []string{
+			"(K-price-miss) a missing price is an error and the error is returned: NormalizedPrices is read only through comma-ok accessors whose absent branch fails, and every Price/Valuate error is tested and returned;",
+			"(D-state-all-paths) prices are carried forward to every day, the previous prices are refreshed on every path, and the day's prices are taken before use;",
+			"(K-reval) the daily revaluation debits the position's own account, credits ValuationAccountFor(that account), in the position's commodity, with value Multiply(today's price - previous price, quantity); positions are skipped only for reviewed reasons and not modified by the loop;",
+			"(J-valuation) each posting is valued by an odd-symmetric function of its own quantity (shared with C01);",
+			"(K-both-directions) every price declaration also refreshes the reciprocal, so valuation through an inverted price uses the latest declaration;",
+			"(G1) prices are computed before valuation in every pipeline; (B1) the mirror account is computed from immutable segments.",
+		},
+		NotDecided: []string{
+			"the values themselves: which day's price is the latest on or before a date, truncation results, chained prices (C12 decides the price function's determinism, not its value);",
+			"that the accumulated gain equals the sum of daily adjustments (arithmetic).",
+		},
+		Rules: []Rule{RuleKPriceMiss, RuleDStateAllPaths, RuleKReval, RuleKBothDirections, RuleJValuation, RuleG1, RuleB1},
+	})
+	claim(&Property{
+		ID: "C12",
+		Decides: []string{
+			"(A-order on Normalize) the price of a commodity is a function of the declarations: the traversal of the price graph does not depend on map iteration order (no first-wins over a map range);",
+			"(K-both-directions) every insertion stores the price and its reciprocal under permuted commodities on every success path, and a later declaration overwrites unconditionally;",
+			"(D-div) a zero price is rejected before the division;",
+			"(K-price-miss) an unconnected commodity has no price and valuing it is an error.",
+		},
+		NotDecided: []string{
+			"which path's product is used among several chains (breadth-first from V, neighbours in name order, by reading), the 8-digit truncation values, and that the most recent declaration per pair is the one in the table on a given day (that is the price stage's carry-forward, C03).",
+		},
+		Rules: []Rule{RuleAOrder, RuleKBothDirections, RuleDDiv, RuleKPriceMiss},
 	})
 }
